@@ -25,6 +25,9 @@ func c14(c *Ctx) {
 	}
 	c14wrappers(c)
 	c14txMethods(c)
+	// R7 (round 8): "rolls back when the k-th statement fails" needs the statement's failure to reach the body: the row
+	// readers report a stream that broke (C06.R11)
+	runShared(c, "C06.R11", "C14.R7", c06notFoundIsNotAnError)
 }
 
 // c14txMethods (R6, round 5): the Commit and Rollback that transactOnConn calls through the `trans` interface are
